@@ -10,7 +10,7 @@ from ..context import Ctx
 from ..dep import Deps
 from ..loader import AnalysisError, norm, own_nodes
 from ..report import RuleResult
-from .common import xnorm
+from .common import _always_leaves, expand, xnorm
 
 META = {
     "explanation": (
@@ -206,14 +206,36 @@ def check(ctx: Ctx) -> list[RuleResult]:
             r4.ok({"store": f"{root}[...] (not a message DB)"})
     if not {"self._msgs_", "self._msgz_"} <= seen_roots:
         raise AnalysisError(f"_MessageDB._handle_msg: no store into {sorted({'self._msgs_', 'self._msgz_'} - seen_roots)}")
-    # no age comparison guards the store (latest arrival wins)
+    # latest arrival wins: whether (and where) the new message is filed must not depend on what is already stored or on a
+    # timestamp comparison - a test over the DB's content / dtm is acceptable only when both of its arms file the message in the
+    # same DBs (the create-or-update cascade of the nested index)
+    DBATTRS = {"_msgs_", "_msgz_", "_msgs", "dtm"}
+
+    def _roots_stored(stmts: list) -> set:
+        ids = {id(x) for st in stmts for x in ast.walk(st)}
+        return {root for root, _k, node in paths if id(node) in ids and root in want}
+
+    db_tests = 0
+    for n in own_nodes(hm.node):
+        if not isinstance(n, ast.If):
+            continue
+        t = expand(hm.node, n.test, pure_only=False)
+        if not any(isinstance(x, ast.Attribute) and x.attr in DBATTRS for x in ast.walk(t)):
+            continue
+        db_tests += 1
+        r4.instances += 1
+        r4.nontrivial += 1
+        later = [node for _r, _k, node in paths if _r in want and getattr(node, "lineno", 0) > getattr(n, "end_lineno", 0)]
+        b, o = _roots_stored(n.body), _roots_stored(n.orelse)
+        if (_always_leaves(n.body) or (n.orelse and _always_leaves(n.orelse))) and later:
+            r4.fail(f"{hm.short}:store-skipped-on:{norm(n.test)[:50]}", hm.loc(n), f"`if {norm(n.test)[:80]}` leaves _handle_msg before the message is filed: whether the newest message is stored depends on what is already stored (a repeated or 'older-looking' message would not refresh the entry and the value ages out although fresh packets keep arriving)")
+        elif b != o:
+            r4.fail(f"{hm.short}:conditional-store:{norm(n.test)[:50]}", hm.loc(n), f"the store into {sorted(b ^ o)} happens only on one arm of `if {norm(n.test)[:80]}`: whether the newest message is stored depends on what is already stored (a repeated message would not refresh the entry and the value ages out although fresh packets keep arriving)")
+        else:
+            r4.ok({"db_dependent_test": norm(n.test)[:60], "both_arms_store_into": sorted(b)})
     r4.instances += 1
     r4.nontrivial += 1
-    guards = [norm(n.test) for n in own_nodes(hm.node) if isinstance(n, ast.If) and "dtm" in norm(n.test)]
-    if not guards:
-        r4.ok({"store_is_unconditional": True})
-    else:
-        r4.fail(f"{hm.short}:conditional-store", hm.loc(), f"the store is guarded by {guards}")
+    r4.ok({"store_tests_over_db_content_or_dtm": db_tests})
     out.append(r4)
 
     # ---- R5 ---------------------------------------------------------------------------
@@ -413,6 +435,64 @@ def check(ctx: Ctx) -> list[RuleResult]:
     r7.info["entity_properties_scanned"] = n_props
     r7.info["payload_caching_attributes"] = {k: sorted({w.short for w in v}) for k, v in cached.items()}
     out.append(r7)
+
+    # ---- R8 ---------------------------------------------------------------------------
+    # An expired message is removed from every entity it was filed with: the clean-up loop over the fan-out list must not be
+    # abandoned because one entity does not hold the message (a KeyError escaping one iteration ends the loop: later zones linger).
+    r8 = RuleResult("R8", "the expiry clean-up reaches every entity", "in _delete_msg each deletion inside the fan-out loop is KeyError-safe within its own iteration, and both stores are cleaned", min_instances=3)
+    dm = repo.func(f"{EB}._MessageDB._delete_msg")
+    loops = [n for n in own_nodes(dm.node) if isinstance(n, ast.For)]
+    dels = []
+    for lp in loops:
+        inside = {id(x) for st in lp.body for x in ast.walk(st)}
+        for n in own_nodes(dm.node):
+            if id(n) in inside and isinstance(n, ast.Delete) and any(isinstance(t, ast.Subscript) for t in n.targets):
+                dels.append((lp, n))
+            elif id(n) in inside and isinstance(n, ast.Call) and isinstance(n.func, ast.Attribute) and n.func.attr == "pop" and any(a in norm(n.func.value) for a in ("_msgs_", "_msgz_")):
+                dels.append((lp, n))
+    if not dels:
+        raise AnalysisError("_MessageDB._delete_msg: no deletion inside a loop over the entities")
+    cleaned = set()
+    for lp, n in dels:
+        r8.instances += 1
+        r8.nontrivial += 1
+        txt = norm(n)
+        for a in ("_msgs_", "_msgz_"):
+            if a in txt:
+                cleaned.add(a)
+        if isinstance(n, ast.Call):  # .pop(key, default) cannot raise
+            if len(n.args) >= 2:
+                r8.ok({"deletion": txt[:70], "safe_because": "pop() with a default"})
+                continue
+        safe = None
+        cur = getattr(n, "parent", None)
+        while cur is not None and cur is not lp:
+            if isinstance(cur, ast.With) and any("suppress" in norm(i.context_expr) and any(e in norm(i.context_expr) for e in ("KeyError", "LookupError", "Exception")) for i in cur.items):
+                safe = "contextlib.suppress inside the iteration"
+            if isinstance(cur, ast.Try) and any(h.type is None or any(e in norm(h.type) for e in ("KeyError", "LookupError", "Exception")) for h in cur.handlers) and any(id(n) == id(x) for st in cur.body for x in ast.walk(st)):
+                safe = "try/except inside the iteration"
+            if isinstance(cur, ast.If) and any(id(n) == id(x) for st in cur.body for x in ast.walk(st)) and any(isinstance(c, ast.Compare) and any(isinstance(o, ast.In) for o in c.ops) for c in ast.walk(cur.test)):
+                # one membership test covers one subscript level of the same container
+                tgt = n.targets[0] if isinstance(n, ast.Delete) else n.func.value
+                depth = 0
+                t2 = tgt
+                while isinstance(t2, ast.Subscript):
+                    depth += 1
+                    t2 = t2.value
+                if depth <= 1 and norm(t2) in norm(cur.test):
+                    safe = f"membership test `{norm(cur.test)[:50]}`"
+            cur = getattr(cur, "parent", None)
+        if safe:
+            r8.ok({"deletion": txt[:70], "safe_because": safe})
+        else:
+            r8.fail(f"{dm.short}:{txt[:50]}:may-abort-loop", dm.loc(n), f"`{txt[:80]}` inside the loop over the entities can raise KeyError out of the iteration (any handler is outside the loop): the first entity that does not hold the message ends the clean-up, so the expired value lingers in the entities after it")
+    r8.instances += 1
+    r8.nontrivial += 1
+    if cleaned >= {"_msgs_", "_msgz_"}:
+        r8.ok({"stores_cleaned": sorted(cleaned)})
+    else:
+        r8.fail(f"{dm.short}:store-not-cleaned", dm.loc(), f"_delete_msg no longer removes the message from {sorted({'_msgs_', '_msgz_'} - cleaned)}: readers of that store keep reporting the expired value")
+    out.append(r8)
     return out
 
 
